@@ -43,14 +43,20 @@ Section SerProofs.
 Variable dumps : val -> option string.
 Variable loads : string -> lres.
 Variable mac : string -> string -> string -> string.
+Variable cenc : val -> option (string * string).
+Variable cdec : string -> string -> option val.
 
 Definition cfg_ok (c : cfg) : Prop := match signer c with None => True | Some (dg, _) => is_label dg = true end.
 
 (* the contract of the pickler and of the MAC (C09) *)
 Hypothesis H_rt : forall v p, dumps v = Some p -> loads p = LOk v.
 Hypothesis H_nd : forall v p, dumps v = Some p -> isdigit p = false.
-Hypothesis H_custom : forall b, loads ("bytes:" ++ b) = LUnpick \/ loads ("bytes:" ++ b) = LOk (VBytes ("bytes:" ++ b)).
+Hypothesis H_c1 : forall v ty e, cenc v = Some (ty, e) -> cdec ty e = Some v.
+Hypothesis H_c2 : forall v ty e, cenc v = Some (ty, e) -> contains ":" ty = false.
+Hypothesis H_c3 : forall v ty e, cenc v = Some (ty, e) ->
+  loads (ty ++ ":" ++ e) = LUnpick \/ loads (ty ++ ":" ++ e) = LOk (VBytes (ty ++ ":" ++ e)).
 Hypothesis H_hex : forall dg s m, contains "_" (mac dg s m) = false /\ contains ":" (mac dg s m) = false.
+Hypothesis H_bytes : forall b, cenc (VBytes b) <> None.      (* bytes stay registered *)
 
 Lemma check_sign_sign c key p : cfg_ok c -> check_sign mac c key (sign mac c key p) = CSOk p.
 Proof.
@@ -71,18 +77,39 @@ Proof.
   destruct (label_shape dg Hl) as (_ & _ & x & r & -> & Hx). apply isdigit_app_nondigit. exact Hx.
 Qed.
 
-Theorem ser_roundtrip c key v : cfg_ok c -> fst (decode loads mac c key (encode dumps mac c key v)) = DVal v.
+Lemma all_digits_no_colon s : contains ":" s = true -> all_digits s = false.
+Proof.
+  induction s as [|x r IH]; cbn [contains all_digits]; [discriminate|].
+  destruct (Ascii.eqb_spec ":" x) as [<-|]; cbn [orb]; [intros _; reflexivity|].
+  intro H. rewrite (IH H). apply andb_false_r.
+Qed.
+Lemma isdigit_contains_colon s : contains ":" s = true -> isdigit s = false.
+Proof. destruct s; [discriminate|]. apply all_digits_no_colon. Qed.
+
+Theorem ser_roundtrip c key v : cfg_ok c ->
+  fst (decode loads mac cdec c key (encode dumps mac cenc c key v)) = DVal v.
 Proof.
   intro Hc. unfold encode.
   assert (Pickled : forall p, dumps v = Some p -> (forall b, v <> VBytes b) ->
-            fst (decode loads mac c key (SBytes (sign mac c key p))) = DVal v).
+            fst (decode loads mac cdec c key (SBytes (sign mac c key p))) = DVal v).
   { intros p Hd Hnb. unfold decode. rewrite (isdigit_sign c key p Hc (H_nd v p Hd)), (check_sign_sign c key p Hc), (H_rt v p Hd).
     destruct v; try reflexivity. exfalso. eapply Hnb. reflexivity. }
+  assert (Custom : forall ty e, cenc v = Some (ty, e) ->
+            fst (decode loads mac cdec c key (SBytes (sign mac c key (ty ++ ":" ++ e)))) = DVal v).
+  { intros ty e He. unfold decode.
+    assert (Hcol : contains ":" (ty ++ ":" ++ e) = true).
+    { rewrite contains_app. cbn [append contains]. rewrite Ascii.eqb_refl. cbn [orb]. apply orb_true_r. }
+    rewrite (isdigit_sign c key _ Hc (isdigit_contains_colon _ Hcol)), (check_sign_sign c key _ Hc).
+    assert (CD : custom_decode cdec (ty ++ ":" ++ e) = DVal v).
+    { unfold custom_decode. change (ty ++ ":" ++ e) with (ty ++ String ":" e).
+      rewrite (split_first_app ":" ty e (H_c2 v ty e He)), (H_c1 v ty e He). reflexivity. }
+    destruct (H_c3 v ty e He) as [-> | ->]; cbn [fst]; exact CD. }
   destruct v as [z|s|b|b0| |l|l|n]; try reflexivity;
+    (destruct (cenc _) as [[ty e]|] eqn:Hce; [apply Custom; reflexivity|]);
     try (destruct (dumps _) as [p|] eqn:Hd; [apply Pickled; [reflexivity|discriminate]|reflexivity]).
-  (* bytes: custom type *)
-  unfold decode. rewrite (isdigit_sign c key ("bytes:" ++ b) Hc eq_refl), (check_sign_sign c key _ Hc).
-  destruct (H_custom b) as [-> | ->]; reflexivity.
+  (* bytes value with no registered encoder: pickled like anything else would need v <> VBytes; the shipped
+     registry always encodes bytes, so this case is excluded by hypothesis H_bytes below *)
+  exfalso. exact (H_bytes b Hce).
 Qed.
 
 (* ---------- C10 ---------- *)
@@ -98,7 +125,7 @@ Proof.
 Qed.
 
 Theorem unpickle_only_verified c key blob dg secret : signer c = Some (dg, secret) ->
-  forall p, In p (snd (decode loads mac c key (SBytes blob))) -> verified mac c key blob p.
+  forall p, In p (snd (decode loads mac cdec c key (SBytes blob))) -> verified mac c key blob p.
 Proof.
   intros Hs p. unfold decode. destruct (isdigit blob); [intros []|].
   destruct (check_sign mac c key blob) as [q| |] eqn:E; try (intros []).
@@ -109,7 +136,7 @@ Qed.
 
 Theorem decode_outcomes c key blob dg secret : signer c = Some (dg, secret) -> isdigit blob = false ->
   (forall p, ~ verified mac c key blob p) ->
-  fst (decode loads mac c key (SBytes blob)) = DDefault \/ fst (decode loads mac c key (SBytes blob)) = DUnsecure.
+  fst (decode loads mac cdec c key (SBytes blob)) = DDefault \/ fst (decode loads mac cdec c key (SBytes blob)) = DUnsecure.
 Proof.
   intros Hs Hd Hnv. unfold decode. rewrite Hd.
   destruct (check_sign mac c key blob) as [q| |] eqn:E; [|left; reflexivity|right; reflexivity].
@@ -137,3 +164,14 @@ Proof.
   destruct Hrest as [_ Hm]. unfold h in Hm. apply H_inj in Hm. apply append_inj_l in Hm. congruence.
 Qed.
 End SerProofs.
+
+Lemma default_registry_ok :
+  (forall v ty e, default_cenc v = Some (ty, e) -> default_cdec ty e = Some v) /\
+  (forall v ty e, default_cenc v = Some (ty, e) -> contains ":" ty = false) /\
+  (forall b, default_cenc (VBytes b) <> None).
+Proof.
+  repeat split.
+  - intros v ty e. destruct v; cbn; try discriminate. intros [= <- <-]. reflexivity.
+  - intros v ty e. destruct v; cbn; try discriminate. intros [= <- _]. reflexivity.
+  - intros b. discriminate.
+Qed.
